@@ -55,6 +55,9 @@ def canonData (d : AcTimerStatusData) : String :=
 /-- hour in 5 bits, minute in 6 bits -/
 def WFState (t : AcTimerState) : Prop := t.hour < 32 ∧ t.minute < 64
 
+/-- run-time test of `WFState` -/
+def wfStateBool (t : AcTimerState) : Bool := decide (t.hour < 32) && decide (t.minute < 64)
+
 /-! ### Quick timer (AT4 0x1FFF20 / AT5 0x1FFF49) -/
 namespace QuickTimer
 
@@ -106,6 +109,10 @@ def canon {T} (ops : Ops T) (m : QuickTimerMessage T) : String :=
     reduces hours modulo 24 and drops seconds) -/
 def WF {T} (m : QuickTimerMessage T) : Prop :=
   m.ac_number < 256 ∧ m.duration % 60 = 0 ∧ m.duration < 86400
+
+/-- run-time test of `WF` -/
+def wfBool {T} (m : QuickTimerMessage T) : Bool :=
+  decide (m.ac_number < 256) && decide (m.duration % 60 = 0) && decide (m.duration < 86400)
 
 end QuickTimer
 
